@@ -119,7 +119,7 @@ def run(rep: Report, tier: str) -> None:
             ok = bool(mm) and int(mm.group(1)) >= 11 and unparse(fv[0].value) == "value"
     rep.check(ok, rc, OP, pp.qualname, "float -> f'{value:.Nf}' (N >= 11) -> RP2Decimal", f"the numeric conversion is {short(convs[0], 80) if convs else 'missing'} (format spec '{desc}'); expected a fixed-point format with at least 11 fractional digits ('.11f'): significant-digit ('g') or shorter formats silently round amounts such as 43210.12345678", loc(convs[0]) if convs else loc(pp.node))
     assign = next((n for n in ast.walk(pp.node) if isinstance(n, ast.Assign) and convs and convs[0] in list(ast.walk(n.value))), None)
-    ok = assign is not None and unparse(assign.targets[0]) == "argument_pack[numeric_parameter]" and unparse(assign.value).endswith("if value is not None else None") and "value = argument_pack[numeric_parameter]" in unparse(pp.node)
+    ok = assign is not None and unparse(assign.targets[0]) == "argument_pack[numeric_parameter]" and unparse(assign.value).startswith("None if value is None else ") and "value = argument_pack[numeric_parameter]" in unparse(pp.node)
     rep.check(ok, rc, OP, pp.qualname, "converted value replaces the same parameter; None stays None", "the converted number is not stored back under the same parameter of the pack (or empty cells no longer stay None)", loc(pp.node))
     loops = [n for n in ast.walk(pp.node) if isinstance(n, ast.For)]
     ok = len(loops) == 1 and unparse(loops[0].iter) == "numeric_parameters" and "numeric_parameters: List[str] = _get_decimal_constructor_argument_names(class_name)" in unparse(pp.node) and not any(isinstance(n, (ast.Break, ast.Continue)) for n in ast.walk(loops[0]))
@@ -181,7 +181,107 @@ def run(rep: Report, tier: str) -> None:
     for kind, fn in (("in", c04._check_in), ("out", c04._check_out), ("intra", c04._check_intra)):
         fn(rep, rf, m, classes[kind])
         c04._check_read_order(rep, rf, m, classes[kind])
+    _check_row_predicates(rep, m)
     check_split(rep, rep.rule("C11.e", "crypto-fee split: acquisition forwarded field by field (crypto_fee=None), FEE out-transaction of the crypto fee with a fresh negative id", floor=20))
+
+
+def _check_row_predicates(rep: Report, m) -> None:
+    """The row loop classifies each row by its first cell: empty, table begin, table end, else header/data. A first cell is empty exactly when it holds
+    None or the empty string: any wider notion (falsy, blank-looking) turns a valid data row whose first mandatory field is 0 into an error or a skipped row."""
+    from ..norm import Ctx, show, tkey
+
+    rg = rep.rule("C11.g", "row classification: a first cell is 'empty' exactly when it is None or the empty string; the end keyword is compared for equality", floor=2)
+    prog, norm = m.prog, m.norm
+    v = ("sym", "v")
+    f = prog.func(OP, "_is_empty")
+    rep.analysed(f)
+    t = norm.inline(f, None, {f.param_names[0]: (v, ("prim", "str"))}, Ctx(f.module, None))
+    # decided by evaluating the normal form on one representative of every kind of cell value the reader can produce (ezodf gives None, str, float, bool)
+    reps = [(None, True), ("", True), (" ", False), ("0", False), ("x", False), (0.0, False), (0, False), (1.5, False), (False, False), (True, False)]
+    wrong, unknown = [], []
+    for val, want in reps:
+        got = _eval_pred(t, val)
+        if got is _UNK:
+            unknown.append(val)
+        elif bool(got) != want:
+            wrong.append((val, bool(got)))
+    if unknown and not wrong:
+        rep.defer_error(f"{loc(f.node)}: _is_empty normalises to {show(t)[:160]}, which the row-predicate rule cannot evaluate for first-cell values {unknown!r}")
+    else:
+        rep.check(
+            not wrong,
+            rg,
+            OP,
+            f.qualname,
+            "_is_empty(v) <=> v is None or v == '' (evaluated on None, '', blank and non-blank strings, zero and non-zero numbers, booleans)",
+            f"_is_empty normalises to {show(t)[:200]}, which gives {wrong!r} (value, verdict); expected True exactly for None and '': with a wider test a data row whose first column holds 0 "
+            "(a mandatory numeric field mapped to column 0) or a blank-looking string is taken for an empty row and the sheet is rejected, with a narrower one blank separator rows are taken for data",
+            loc(f.node),
+        )
+    f = prog.func(OP, "_is_table_end")
+    rep.analysed(f)
+    t = norm.inline(f, None, {f.param_names[0]: (v, ("prim", "str"))}, Ctx(f.module, None))
+    ok = t[0] == "cmp" and t[1] == "==" and v in (t[2], t[3]) and any(x[0] == "const" and isinstance(x[1], str) and x[1] for x in (t[2], t[3]))
+    rep.check(ok, rg, OP, f.qualname, "_is_table_end(v) <=> v == <keyword>", f"_is_table_end normalises to {show(t)[:200]}; expected equality with the end-of-table keyword", loc(f.node))
+
+
+_UNK = object()
+_TYPES = {"str": str, "int": int, "float": float, "bool": bool}
+
+
+def _eval_pred(t, val):
+    """Value of a normal-form term when the symbol v holds ``val`` (a concrete representative); _UNK when a construct is not modelled."""
+    k = t[0]
+    if k == "const":
+        return t[1]
+    if k == "sym":
+        return val if t[1] == "v" else _UNK
+    if k == "not":
+        x = _eval_pred(t[1], val)
+        return _UNK if x is _UNK else (not x)
+    if k in ("and", "or"):
+        xs = [_eval_pred(x, val) for x in t[1]]
+        decisive = (lambda x: not x) if k == "and" else (lambda x: bool(x))
+        if any(x is not _UNK and decisive(x) for x in xs):
+            return k == "or"
+        return _UNK if any(x is _UNK for x in xs) else (k == "and")
+    if k == "truthy":
+        x = _eval_pred(t[1], val)
+        return _UNK if x is _UNK else bool(x)
+    if k == "ite":
+        c = _eval_pred(t[1], val)
+        if c is _UNK:
+            return _UNK
+        return _eval_pred(t[2] if c else t[3], val)
+    if k == "cmp":
+        a, b = _eval_pred(t[2], val), _eval_pred(t[3], val)
+        if a is _UNK or b is _UNK:
+            return _UNK
+        try:
+            return {"==": lambda: a == b, "!=": lambda: a != b, "is": lambda: a is b, "is not": lambda: a is not b, "in": lambda: a in b, "not in": lambda: a not in b}[t[1]]()
+        except (KeyError, TypeError):
+            return _UNK
+    if k == "tuple":
+        xs = [_eval_pred(x, val) for x in t[1]]
+        return _UNK if any(x is _UNK for x in xs) else tuple(xs)
+    if k == "xcall":
+        name, recv, args = t[1], t[2], t[3]
+        if name == "isinstance" and len(args) == 2:
+            a = _eval_pred(args[0], val)
+            types = [args[1]] if args[1][0] == "sym" else list(args[1][1]) if args[1][0] == "tuple" else []
+            if a is _UNK or not types or not all(x[0] == "sym" and x[1] in _TYPES for x in types):
+                return _UNK
+            return isinstance(a, tuple(_TYPES[x[1]] for x in types))
+        if name in ("strip", "lstrip", "rstrip") and recv is not None and not args:
+            a = _eval_pred(recv, val)
+            return getattr(a, name)() if isinstance(a, str) else _UNK
+        if name in ("len", "str", "bool") and recv is None and len(args) == 1:
+            a = _eval_pred(args[0], val)
+            try:
+                return _UNK if a is _UNK else {"len": len, "str": str, "bool": bool}[name](a)
+            except TypeError:
+                return _UNK
+    return _UNK
 
 
 def check_handler_paths(rep: Report, rd: str) -> None:
